@@ -1411,6 +1411,9 @@ class ServiceAnnouncer:
         self.started = True
 
     def stop(self):
+        if not self.started:
+            # instances are only running between start() and stop()
+            return
         for instance in self.announcing_services:
             instance.stop()
         self.started = False
